@@ -30,7 +30,10 @@ Tables == {
     [n \in {"A", "L"} |-> IF n = "A" THEN "L" ELSE "A"],                 \* swap
     [n \in {"L", "LA", "a$b"} |-> CASE n = "L" -> "p/L" [] n = "LA" -> "L" [] OTHER -> "c$d$e"],
     [n \in {"p/q", "é"} |-> IF n = "p/q" THEN "r/s/t" ELSE "üß"],
-    [n \in {"A", "B"} |-> IF n = "A" THEN "B" ELSE "C"]                  \* B is captured: A -> B, B -> C
+    [n \in {"A", "B"} |-> IF n = "A" THEN "B" ELSE "C"],                 \* B is captured: A -> B, B -> C
+    (* the outer class of a$b / a$1 is mapped, the nested classes are not: an unmapped name stays as it is, whatever *)
+    (* happens to the name in front of its $ (seed C06-12)                                                           *)
+    [n \in {"a", "A"} |-> IF n = "a" THEN "z/Q" ELSE "X"]
 }
 TableTree(R) == Root(NS2, <<>>, MapOf({Class(<<n, R[n]>>, <<>>, <<>>) : n \in DOMAIN R}))
 
@@ -58,13 +61,25 @@ MemberKids(kind, decl, f, t, tag) ==
     ELSE LET m == Member(kind, decl, f, t, tag) IN
          IF t = 1 /\ decl = "unnamed" THEN <<>>      \* the first name cannot be absent: no such entry
          ELSE MapOf({m})
+(* A sibling of the member in Top whose name + descriptor are the characters of another, unmapped member split elsewhere   *)
+(* (tables are keyed by the pair, not by the concatenation; seed C06-10):                                                  *)
+(*   field  memLZed : LMid;             against the query  mem : LZedLMid;           (class ZedLMid, unmapped)              *)
+(*   method mem(LZed : (LTop;)LMid;     against the query  mem : (LZed(LTop;)LMid;   (parameter class Zed(LTop, unmapped)) *)
+SibInfix(kind) == IF kind = "m" THEN "(LZed" ELSE "LZed"
+SiblingKids(kind) ==
+    LET nm == <<"mem" \o SibInfix(kind), "mem2" \o SibInfix(kind), "mem3" \o SibInfix(kind)>>
+    IN MapOf({IF kind = "m" THEN Method(nm, MDesc(kind), <<>>, <<>>) ELSE Field(nm, "LMid;", <<>>)})
 Graphs == {
     [Bot |-> <<"Mid">>, Mid |-> <<"Top">>, Itf |-> <<>>],                  \* chain
     [Bot |-> <<"Mid", "Itf">>, Mid |-> <<"Top">>, Itf |-> <<"Top">>],      \* diamond
     [Bot |-> <<"Itf", "Mid">>, Mid |-> <<"Top">>, Itf |-> <<>>],           \* other declaration order
     [Bot |-> <<"Mid", "Itf">>, Mid |-> <<>>, Itf |-> <<"Top">>],           \* depth 2 on the second branch only
     [Bot |-> <<"Top">>, Mid |-> <<"Top">>, Itf |-> <<>>],
-    [Bot |-> <<>>, Mid |-> <<"Top", "Itf">>, Itf |-> <<>>]
+    [Bot |-> <<>>, Mid |-> <<"Top", "Itf">>, Itf |-> <<>>],
+    (* a super type that is the first super type of a deeper class and a later direct super type of the owner: it is met first *)
+    (* below the first branch (seed C06-9: a search that marks classes when they are queued skips it there)                     *)
+    [Bot |-> <<"Mid", "Itf">>, Mid |-> <<"Itf", "Top">>, Itf |-> <<>>],
+    [Bot |-> <<"Mid", "Top">>, Mid |-> <<"Top", "Itf">>, Itf |-> <<>>]
 }
 SrcClasses == {"Top", "Mid", "Itf", "Bot"}
 
@@ -87,7 +102,7 @@ PickDesc ==
 
 PickClass ==
     /\ phase = "class1"
-    /\ \E c \in CNames \cup {"B", "X", "[LA;", "[[La$b;", "[I", "[[LL;"} : q' = [c |-> c]
+    /\ \E c \in CNames \cup {"B", "X", "[LA;", "[[La$b;", "[I", "[[LL;", "a", "a$1", "a$b$c"} : q' = [c |-> c]
     /\ phase' = "class"
     /\ UNCHANGED M
 
@@ -102,7 +117,7 @@ PickMember ==
     /\ phase = "member1"
     /\ \E dTop \in Decl, dMid \in Decl, dItf \in Decl, dBot \in IF Tier = 0 THEN {"absent"} ELSE {"absent", "named"} :
         M' = Root(NS3, <<>>, MapOf({
-                    Class(<<"Top", q.top2, "T3">>, <<>>, MemberKids(q.kind, dTop, q.f, q.t, "t")),
+                    Class(<<"Top", q.top2, "T3">>, <<>>, MemberKids(q.kind, dTop, q.f, q.t, "t") @@ SiblingKids(q.kind)),
                     Class(<<"Mid", q.mid2, q.mid3>>, <<>>, MemberKids(q.kind, dMid, q.f, q.t, "m")),
                     Class(<<"Itf", "I2", "I3">>, <<>>, MemberKids(q.kind, dItf, q.f, q.t, "i")),
                     Class(<<"Bot", "B2", "B3">>, <<>>, MemberKids(q.kind, dBot, q.f, q.t, "b"))}))
@@ -138,6 +153,8 @@ Queries ==
         d \in {DescIn(M, MDesc(q.kind), q.f)}}
     \cup {[owner |-> "Unknown", name |-> MemberName(q.f), desc |-> DescIn(M, MDesc(q.kind), q.f)],
           [owner |-> NameIn("Bot", q.f), name |-> MemberName(q.f), desc |-> IF q.kind = "m" THEN "(LTop;)V" ELSE "LMid;"]}
+    \cup {[owner |-> NameIn(o, q.f), name |-> MemberName(q.f),
+           desc |-> SibInfix(q.kind) \o DescIn(M, IF q.kind = "m" THEN MDesc(q.kind) ELSE "LMid;", q.f)] : o \in {"Bot", "Top"}}
 
 AnswerExp(qq) ==
     LET S == MemberAnswers(M, SupIn(q.g, q.f), q.kind, q.f, q.t, qq.owner, qq.name, qq.desc)
